@@ -329,8 +329,11 @@ def h_sheet(perm: int, lead_blank: int, offset_i: int, stop_i: int, ladder: bool
         stop_on = ["blank all", "blank first"][stop_i]
         variants = _row_variants(order, rs)
         nrows = shard["nrows"]
+        from vf.xh import sweep_should_stop
         for n in range(0, nrows + 1):
             for combo in itertools.product(range(len(variants)), repeat=n):
+                if sweep_should_stop():
+                    return
                 data_rows = [list(variants[k]) for k in combo]
                 # ids must be present (rows with an empty key are outside the claim); 'blank first' needs a non-blank first cell
                 if stop_on == "blank first" and any(_empty(r[0]) for r in data_rows):
